@@ -55,6 +55,9 @@ class C09(Prop):
                 for c in (1, 3):
                     out.append({'parts': parts, 'ext': '.gz' if k % 2 else '', 'max': 2, 'wfail': [], 'wfail_from': None,
                                 'cfail': [[k, c]], 'pre': None})
+            if n >= 2:
+                out.append({'parts': parts, 'ext': '', 'max': 2, 'wfail': [], 'wfail_from': None, 'cfail': [[n - 1, 10 ** 6]],
+                            'pre': None, 'catch': True})
             for pre in ('file', 'dir', 'emptydir'):
                 out.append({'parts': parts, 'ext': '', 'max': 2, 'wfail': [], 'wfail_from': None, 'cfail': [], 'pre': pre})
         return out
@@ -70,6 +73,11 @@ class C09(Prop):
             if rng.random() < .2:
                 cfail.append([k, rng.choice([1, 1, 2, mx, mx + 1])])
         pre = rng.choice([None] * 8 + ['file', 'dir', 'emptydir'])
+        if rng.random() < .08:
+            # catch_exceptions=True never gives up retrying: only "fails on every attempt" plans have the same meaning
+            k = rng.randrange(n)
+            return {'parts': parts, 'ext': '', 'max': mx, 'wfail': [], 'wfail_from': None, 'cfail': [[k, 10 ** 6]], 'pre': None,
+                    'catch': True}
         return {'parts': parts, 'ext': rng.choice(['', '', '.gz', '.bz2']), 'max': mx, 'wfail': wfail, 'wfail_from': wfrom,
                 'cfail': cfail, 'pre': pre}
 
@@ -131,7 +139,7 @@ class C09(Prop):
                 raise InjectedComputeError(i, attempts[i] - 1)
             return it
 
-        sc = self.Context(max_retries=case['max'])
+        sc = self.Context(max_retries=case['max'], catch_exceptions=bool(case.get('catch')))
         rdd = build_layout(sc, parts).mapPartitionsWithIndex(compute) if cf else build_layout(sc, parts)
         self.local.Local.dump = faulty_dump
         try:
@@ -142,6 +150,9 @@ class C09(Prop):
                 result = 'FileAlreadyExists'
             except (InjectedWriteError, InjectedComputeError):
                 result = 'failed'
+            except RecursionError:
+                # catch_exceptions=True: the task is retried for ever; the interpreter ends it
+                result = 'failed' if case.get('catch') else 'other:RecursionError'
             except BaseException as e:  # pylint: disable=broad-except
                 result = 'other:' + type(e).__name__
         finally:
